@@ -88,11 +88,11 @@ CLAIMED = {
             "With an interacted UI element all mouse-sourced inputs read inactive and keyboard/gamepad inputs are unchanged; without one "
             "nothing is masked. Partial: bevy_ui's own Interaction detection is outside the model." + CORR, "§5 C16"),
     "C17": ("Lean 4 theorems (simulation relation `Agree` on the kept contexts' inputs: preserved by evaluating a kept action on both sides and by "
-            "any consumption of an input-disjoint action on one side; determinism) + pairwise runs of the real crate (configuration vs "
+            "any consumption of an input-disjoint action on one side; lifted over instances, groups and the whole registry; determinism) + pairwise runs of the real crate (configuration vs "
             "sub-configuration with the input-disjoint contexts deleted, same script incl. noise) + every scenario run twice in separate processes",
             "An action's result depends on the reader only through its own inputs; disjoint consumption is invisible; the real crate's traces of "
-            "the kept contexts are identical with and without the disjoint contexts and identical across re-runs. Partial: the lifting of the "
-            "simulation over arbitrary interleavings of groups in the registry is covered by the pairwise runs, not by a theorem." + CORR, "§5 C17"),
+            "the kept contexts are identical with and without the disjoint contexts and identical across re-runs; registry_noninterference lifts "
+            "the simulation over arbitrary interleavings of kept and deleted context types in the evaluation order." + CORR, "§5 C17"),
     "C18": ("Lean 4 theorems over exact rationals (Mathlib order/field lemmas: dead-zone range, sign, monotonicity, saturation; lerp between; "
             "swizzle permutation and losslessness; zero-to-zero; dimension rules) + checked correspondence on direct apply calls (dense grid, "
             "random values, short exact DeltaLerp chains) and in real contexts",
